@@ -39,10 +39,11 @@ def cacheSet (c : Cache) (account asset : String) (v : Int) : Cache :=
     c.map (fun p => if p.1 == (account, asset) then (p.1, v) else p)
   else c ++ [((account, asset), v)]
 
-/-- merge a store answer: entries already cached are kept -/
+/-- merge a store answer: entries already cached are kept; the balance of @world is never
+    requested and is ignored if the store volunteers it -/
 def cacheMerge (c : Cache) : BalanceAnswer → Cache
   | [] => c
-  | ((a, s), v) :: t => cacheMerge (if cacheHas c a s then c else c ++ [((a, s), v)]) t
+  | ((a, s), v) :: t => cacheMerge (if a = WORLD ∨ cacheHas c a s then c else c ++ [((a, s), v)]) t
 
 /-- `batchQuery` -/
 def batchQuery (pending : BalanceQuery) (account asset : String) : BalanceQuery :=
